@@ -144,16 +144,15 @@ func hasPermutedTuples(keys []string, docs ...any) bool {
 	return false
 }
 
-
 func init() {
 	p := &mon.Property{
 		ID: "C01",
 		Rule: "cases are (a, b, option set): seeded random document pairs (b = structured mutation of a three times in four) per option set, " +
 			"exhaustive array pairs over {1,2,3} wrapped at four depths, the FuzzJd corpus, void on either side, YAML-read inputs, pairs differing in several sibling members below a chain of 1-9 object keys; " +
-			"non-trivial = the diff has at least one hunk; distinct = distinct (a, b, options) texts",
+			"every non-empty diff is applied twice, to a fresh parse of a and to the very operand it was computed from (whose arrays its hunks may still refer to); non-trivial = the diff has at least one hunk; distinct = distinct (a, b, options) texts",
 		Floors: map[string]int{
 			"diff_nonempty": 5000, "hunks>=2": 1000, "index_shift(>=2 hunks in one array)": 300, "hunk_nested_arrays": 300,
-			"hunk_set_multi": 100, "hunk_keyed_member": 100, "hunk_merge": 100, "hunk_multiset": 100, "void_involved": 20, "deep_chain_pairs": 5000, "yaml_read_pairs": 3000,
+			"hunk_set_multi": 100, "hunk_keyed_member": 100, "hunk_merge": 100, "hunk_multiset": 100, "void_involved": 20, "deep_chain_pairs": 5000, "yaml_read_pairs": 3000, "applied_to_the_operand_itself": 5000,
 		},
 		Assumptions: []string{
 			"jd values are built with jd's own ReadJsonString / ReadYamlString from generated text",
